@@ -190,7 +190,9 @@ def saves_and_monitors(ctx, rng, idx):
     cfl = float(rng.uniform(0.1, 0.4) if not implicit else rng.uniform(0.2, 1.5))
     N = int(rng.integers(2, 9))
     make = lambda: gen.integ(iname)(s.mesh, s.disc)
-    base, _, _ = _traj(make().solve, s.field, cfl, stop={"maxit": N})
+    # a quarter of the cases run with the local-time-step directive (the same one in every call of the case)
+    dirs = {"dtlocal": True} if rng.random() < 0.25 else {}
+    base, _, _ = _traj(make().solve, s.field, cfl, stop={"maxit": N}, directives=dict(dirs))
     times = [t["time"] for t in base]
     if not (np.all(np.isfinite(times)) and np.all(np.diff(times) > 0) and all(np.all(np.isfinite(d)) for t in base for d in t["data"])):
         raise core.Skip("nonfinite")
@@ -198,16 +200,16 @@ def saves_and_monitors(ctx, rng, idx):
     ks = sorted(int(k) for k in rng.integers(0, N, nsave))
     tsave = sorted(times[k] + float(rng.uniform(0.05, 0.9)) * (times[k + 1] - times[k]) for k in ks)
     mons, mdesc = _monitors(rng, s.model)
-    ctx.describe(integrator=iname, cfl=cfl, N=N, tsave=tsave, monitors=mdesc, **s.desc())
+    ctx.describe(integrator=iname, cfl=cfl, N=N, tsave=tsave, monitors=mdesc, directives=dirs, **s.desc())
     who = "gear" if iname == "gear" else "implicit" if implicit else "explicit"
     # (d) extra save times
     S = make()
-    t1, _, _ = _traj(S.solve, s.field, cfl, tsave, stop={"maxit": N, "tottime": times[-1] * 2 + 1e9})
+    t1, _, _ = _traj(S.solve, s.field, cfl, tsave, stop={"maxit": N, "tottime": times[-1] * 2 + 1e9}, directives=dict(dirs))
     ok = len(t1) == len(base) and all(_same(a, b) for a, b in zip(base, t1))
     ctx.true("extra-saves", ok, "saves/trajectory-changed-by-save-times/" + who, {"first differing iteration": next((k for k, (a, b) in enumerate(zip(base, t1)) if not _same(a, b)), None), "tsave": tsave}, cls="extra-saves")
     # (e) monitors attached
     S2 = make()
-    t2, _, log2 = _traj(S2.solve, s.field, cfl, stop={"maxit": N}, monitors=mons)
+    t2, _, log2 = _traj(S2.solve, s.field, cfl, stop={"maxit": N}, monitors=mons, directives=dict(dirs))
     ok = len(t2) == len(base) and all(_same(a, b) for a, b in zip(base, t2))
     ctx.true("monitors-attached", ok, "monitors/trajectory-changed-by-monitors/" + who, {"monitors": mdesc}, cls="monitors-attached")
     _check_monitor_records(ctx, s, log2, mons, {}, iname)
@@ -216,16 +218,16 @@ def saves_and_monitors(ctx, rng, idx):
     cmons, cdesc = _monitors(rng, s.model)
     cmons = {"ctor_" + k: dict(v, type=v.get("type", k)) for k, v in cmons.items()}
     S4 = gen.integ(iname)(s.mesh, s.disc, monitors=cmons)
-    t4, _, log4 = _traj(S4.solve, s.field, cfl, stop={"maxit": N})
+    t4, _, log4 = _traj(S4.solve, s.field, cfl, stop={"maxit": N}, directives=dict(dirs))
     ok = len(t4) == len(base) and all(_same(a, b) for a, b in zip(base, t4))
     ctx.true("monitors-attached", ok, "monitors/trajectory-changed-by-constructor-monitors/" + who, {"monitors": cdesc}, cls="monitors-attached")
     _check_monitor_records(ctx, s, log4, cmons, {}, iname)
     before = {k: len(v["output"]._it) for k, v in cmons.items() if "output" in v}
-    t5, _, log5 = _traj(S4.solve, s.field, cfl, stop={"maxit": N}, monitors=mons)
+    t5, _, log5 = _traj(S4.solve, s.field, cfl, stop={"maxit": N}, monitors=mons, directives=dict(dirs))
     _check_monitor_records(ctx, s, log5, cmons, before, iname)
     ctx.true("monitors-attached", len(t5) == len(base) and all(_same(a, b) for a, b in zip(base, t5)), "monitors/trajectory-changed-by-constructor-and-call-monitors/" + who, None, cls="monitors-attached")
     # both, on the object that already ran
-    t3, _, log3 = _traj(S.solve, s.field, cfl, tsave, stop={"maxit": N, "tottime": 1e30}, monitors=mons)
+    t3, _, log3 = _traj(S.solve, s.field, cfl, tsave, stop={"maxit": N, "tottime": 1e30}, monitors=mons, directives=dict(dirs))
     ok = len(t3) == len(base) and all(_same(a, b) for a, b in zip(base, t3))
     ctx.true("extra-saves", ok, "saves/trajectory-changed-by-saves-and-monitors/" + who, None, cls="extra-saves")
     _check_monitor_records(ctx, s, log3, mons, {}, iname)
